@@ -35,6 +35,22 @@ void vp_thr_exec(arena* a, thread_data* td, int tid) {
   vp_returned(tid);
 }
 
+// the same statements with the scope object held in harness storage, so that a sequential driver can place another thread's
+// complete enter / leave between any two boundary calls of this thread (h_exec_seq.c)
+unsigned long vp_enter(arena* a, thread_data* td, int tid, void* scope_storage) {
+  std::size_t index1 = a->occupy_free_slot</*as_worker*/false>(*td);
+  if (index1 == arena::out_of_arena) { vp_noslot(tid); return index1; }
+  vp_occupied(tid, index1);
+  new (scope_storage) nested_arena_context(*td, *a, index1);
+  vp_body(tid, td->my_arena_index);
+  return index1;
+}
+void vp_leave(int tid, void* scope_storage) {
+  static_cast<nested_arena_context*>(scope_storage)->~nested_arena_context();
+  vp_returned(tid);
+}
+unsigned long vp_sizeof_scope() { return sizeof(nested_arena_context); }
+
 // ---- sequential set-up / inspection
 // arena storage (typed harness object): [n mail_outbox][arena_base + slot 0][n-1 arena_slot]; zero-initialised; the scalar
 // fields the constructor stores; slot i gets the default task_dispatcher disp + i (typed harness array, zero-initialised:
